@@ -405,6 +405,7 @@ func H_C03_diff2bq() { rhDiffRun(diffFams[instance()], []int{2, 1}, 3) }
 
 // H_C03_diff2: two plugins (<=1 and <=2 items)
 //verif:property C03
+//verif:thorough-instances 2 3 4 5 6 7 8 9 10 11 12 13 14 15 16 17 18 19
 //verif:instances 20
 //verif:tier thorough
 //verif:cut (*github.com/containerd/nri/pkg/runtime-tools/generate.Generator).sortMounts => verifNoSort
@@ -414,6 +415,7 @@ func H_C03_diff2() { rhDiffRun(diffFams[instance()], []int{1, 2}, 3) }
 
 // H_C03_diff2b: two plugins (<=2 and <=1 items)
 //verif:property C03
+//verif:thorough-instances 2 3 4 5 6 7 8 9 10 11 12 13 14 15 16 17 18 19
 //verif:instances 20
 //verif:tier thorough
 //verif:cut (*github.com/containerd/nri/pkg/runtime-tools/generate.Generator).sortMounts => verifNoSort
@@ -423,6 +425,7 @@ func H_C03_diff2b() { rhDiffRun(diffFams[instance()], []int{2, 1}, 3) }
 
 // H_C03_diff3: three plugins, one item each
 //verif:property C03
+//verif:thorough-instances 2 3 4 5 6 7 8 9 10 11 12 13 14 15 16 17 18 19
 //verif:instances 20
 //verif:tier thorough
 //verif:cut (*github.com/containerd/nri/pkg/runtime-tools/generate.Generator).sortMounts => verifNoSort
@@ -451,6 +454,7 @@ func H_C04_view2bq() { rhDiffRun(diffFams[instance()], []int{2, 1}, 4) }
 
 // H_C04_view2: two plugins (<=2 and <=1 items), all families
 //verif:property C04
+//verif:thorough-instances 2 3 4 5 6 8 9 10 11 12 13 14 15 16 17 18 19
 //verif:instances 20
 //verif:tier thorough
 //verif:cut (*github.com/containerd/nri/pkg/runtime-tools/generate.Generator).sortMounts => verifNoSort
@@ -460,6 +464,7 @@ func H_C04_view2() { rhDiffRun(diffFams[instance()], []int{2, 1}, 4) }
 
 // H_C04_view3: three plugins, one item each
 //verif:property C04
+//verif:thorough-instances 2 3 4 5 6 8 9 10 11 12 13 14 15 16 17 18 19
 //verif:instances 20
 //verif:tier thorough
 //verif:cut (*github.com/containerd/nri/pkg/runtime-tools/generate.Generator).sortMounts => verifNoSort
@@ -600,6 +605,7 @@ func H_C03_chain2q() { rhChainRun(instance(), 2, 3) }
 
 // H_C03_chain3: three plugins, seven patterns over two keys.
 //verif:property C03
+//verif:thorough-instances 1 2 3
 //verif:instances 4
 //verif:tier thorough
 //verif:cut (*github.com/containerd/nri/pkg/runtime-tools/generate.Generator).sortMounts => verifNoSort
@@ -624,10 +630,12 @@ func H_C04_chain3q() {
 	rhChainRun(instance(), n, 4)
 }
 
-// H_C04_chain2q: see H_C03_chain2q (annotations: thorough tier only).
+// H_C04_chain2q: see H_C03_chain2q (env, mounts, devices; for annotations the per-step re-application makes
+// the map-order exploration exceed any budget: 1.7 million paths in 30 minutes without finishing).
 //verif:property C04
 //verif:instances 4
 //verif:quick-instances 1 2 3
+//verif:thorough-instances 1 2 3
 //verif:cut (*github.com/containerd/nri/pkg/runtime-tools/generate.Generator).sortMounts => verifNoSort
 //verif:replay-with-cuts
 //verif:expect-cover compared
@@ -635,6 +643,7 @@ func H_C04_chain2q() { rhChainRun(instance(), 2, 4) }
 
 // H_C04_chain3: see H_C03_chain3.
 //verif:property C04
+//verif:thorough-instances 1 2 3
 //verif:instances 4
 //verif:tier thorough
 //verif:cut (*github.com/containerd/nri/pkg/runtime-tools/generate.Generator).sortMounts => verifNoSort
